@@ -104,6 +104,7 @@ type Ctx struct {
 	frameAllowed map[string][]string
 	frameAllowedCond map[string][][2]string
 	frameAllowedQ    map[string][]havocTarget // quantified location sets of the own assigns clause
+	factSeen         map[string]bool
 	frameWhole   map[string]bool
 }
 
@@ -143,6 +144,20 @@ func (c *Ctx) assert(t string) {
 	for len(c.LogBlk) < len(c.Log) {
 		c.LogBlk = append(c.LogBlk, c.curTopBlock)
 	}
+}
+
+// assertFact asserts a type-invariant axiom once per originating block (the
+// relevance slicing keeps an assertion only for obligations its block reaches).
+func (c *Ctx) assertFact(t string) {
+	if c.factSeen == nil {
+		c.factSeen = map[string]bool{}
+	}
+	k := fmt.Sprint(c.curTopBlock) + "\x00" + t
+	if c.factSeen[k] || c.factSeen["-1\x00"+t] {
+		return
+	}
+	c.factSeen[k] = true
+	c.assert(t)
 }
 
 // assume asserts t under guard g.
